@@ -158,7 +158,10 @@ def run(eng, R):
     ok_z, _ = grb.all_paths_pass(grb.entry.id, zero_counts)
     R.ob("G4", "rebin:zero", ok_z, eng.where(rb), "rebin does not reset the counts to zeros (re-queued entries would be counted twice)")
     zs = [n.stmt for n in grb.stmt_nodes() if zero_counts(n)]
-    sz_ok = bool(zs) and all(_norm_len(ast.unparse(z.value.args[0])) in ("len(self._bin_edges)+1", "len(_new_bin_edges)+1") for z in zs)
+    # the edges may be held in a local that is stored to self._bin_edges in the same function
+    edge_locals = {ast.unparse(n.value) for n in ast.walk(rb.node) if isinstance(n, ast.Assign) and any(self_attr(t) == "_bin_edges" for t in n.targets) and isinstance(n.value, ast.Name)}
+    okl = {"len(self._bin_edges)+1"} | {"len(%s)+1" % e for e in edge_locals}
+    sz_ok = bool(zs) and all(_norm_len(ast.unparse(common.resolve_local(rb.node, z.value.args[0]) if not any(isinstance(x, ast.Name) and x.id in edge_locals for x in ast.walk(z.value.args[0])) else z.value.args[0])) in okl for z in zs)
     R.ob("G4", "rebin:size", sz_ok, eng.where(rb), "rebin allocates %s counts, expected len(edges)-1 bins + underflow + overflow" % [ast.unparse(z.value.args[0]) for z in zs])
     fl = eng.cfunc(p.method(H, "fill"))
     q_ok = False
@@ -172,11 +175,24 @@ def run(eng, R):
                     v = defs[0]
             if isinstance(v, ast.Call) and common.call_name(v) == "list" and v.args and isinstance(v.args[0], ast.Name) and v.args[0].id == "entries":
                 q_ok = True
-        if isinstance(n, ast.Call) and isinstance(n.func, ast.Attribute) and n.func.attr == "extend" and self_attr(n.func.value) == "_unprocessed_entries" and n.args and isinstance(n.args[0], ast.Name) and n.args[0].id == "entries":
-            q_ok = True
+        if isinstance(n, ast.Call) and isinstance(n.func, ast.Attribute) and n.func.attr == "extend" and self_attr(n.func.value) == "_unprocessed_entries" and n.args:
+            a0 = common.resolve_local(fl.node, n.args[0])
+            if isinstance(a0, ast.Call) and common.call_name(a0) == "list" and a0.args:
+                a0 = a0.args[0]
+            if isinstance(a0, ast.Name) and a0.id == "entries":
+                q_ok = True
     R.ob("G4", "fill:queue", q_ok, eng.where(fl), "fill does not queue all given entries")
     raw = eng.cfunc(H.find_prop("raw_data").fget)
-    txt = [ast.unparse(r.value) for r in ast.walk(raw.node) if isinstance(r, ast.Return) and r.value is not None]
+    txt = []
+    for r in ast.walk(raw.node):
+        if isinstance(r, ast.Return) and r.value is not None:
+            t_ = ast.unparse(common.resolve_local(raw.node, r.value))
+            if isinstance(r.value, ast.Name):
+                # a list that is built up: what it is created from and what is appended to it
+                t_ += " " + " ".join(ast.unparse(c) for c in ast.walk(raw.node) if isinstance(c, ast.Call) and isinstance(c.func, ast.Attribute) and c.func.attr in ("extend", "append")
+                                     and isinstance(c.func.value, ast.Name) and c.func.value.id == r.value.id)
+                t_ += " " + " ".join(ast.unparse(a.value) for a in ast.walk(raw.node) if isinstance(a, (ast.Assign, ast.AugAssign)) and ast.unparse(a.targets[0] if isinstance(a, ast.Assign) else a.target) == r.value.id)
+            txt.append(t_)
     R.ob("G4", "raw_data", bool(txt) and all("_processed_entries" in t and "_unprocessed_entries" in t for t in txt), eng.where(raw), "raw_data must list processed and pending entries")
     ne = eng.cfunc(H.find_prop("n_entries").fget)
     txt = [ast.unparse(r.value) for r in ast.walk(ne.node) if isinstance(r, ast.Return) and r.value is not None]
